@@ -22,6 +22,9 @@ def comp(spec):
         return None
     k = spec["kind"]
     if k == "poly":
+        if spec.get("scalar_return"):
+            v = float(spec["coef"][0])
+            return lambda t: v              # a callable may answer with a scalar: it stands for that constant at every time
         return poly(spec["coef"])
     if k == "arr":
         return np.array(spec["vals"], dtype=float)
